@@ -25,7 +25,8 @@ RULE = (
     'Distinct: hash of the case.')
 ASSUMPTIONS = ['cases where a joint reaches its range during the step are counted limit_reached_not_compared; scenes that are not separated are counted not_separated_not_compared',
                'the positional pipeline\'s velocity after a position projection is not asserted (XPBD removes it by design); the centre position is. The lowest point is not asserted: a push at a corner legitimately rotates the body',
-               'margins 5 cm / 5 mm / 0.05 m/s and the rebound margins are the property\'s']
+               'margins 5 cm / 5 mm / 0.05 m/s and the rebound margins are the property\'s',
+               'resting and rebound scenes optionally contain a second free body resting 7 m away and listed first in the document (the body under test is then the second tree; the scene has collision candidates that never touch)']
 TOLERANCES = {'twin_equality': 1e-9, 'unit_rotation': 1e-12, 'push': 1e-9, 'sink': 0.05, 'rest_height': 0.005, 'rest_speed': 0.05,
               'rebound_positional': [-0.02, 0.02], 'rebound_spring': [-0.02, 0.2]}
 fl = modelgen.fl
@@ -184,11 +185,23 @@ def check_limits(c, ctx=None):
 # -- 3-5. single body on the plane -------------------------------------------------------
 
 
-def body_xml(shape, size, density, gravity, dt, elasticity=0.0):
+def body_xml(shape, size, density, gravity, dt, elasticity=0.0, bystander=None):
+  """bystander: optional (shape, size) of a second free body listed FIRST in the document, i.e. the body under test is
+  then the second kinematic tree and the scene has collision candidates that never touch."""
+  other = ''
+  if bystander is not None:
+    other = f'<body name="other"><freejoint/><geom type="{bystander[0]}" size="{fmt(bystander[1])}" density="1000.0"/></body>'
   return (f'<mujoco><compiler angle="radian"/><option timestep="{dt!r}" gravity="0 0 {gravity!r}"/>'
           f'<custom><numeric name="matrix_inv_iterations" data="0"/><numeric name="elasticity" data="{elasticity!r}"/></custom>'
-          f'<worldbody><geom name="floor" type="plane" size="10 10 1"/>'
+          f'<worldbody><geom name="floor" type="plane" size="10 10 1"/>{other}'
           f'<body name="a"><freejoint/><geom type="{shape}" size="{fmt(size)}" density="{density!r}"/></body></worldbody></mujoco>')
+
+
+def with_bystander(q, bystander, nq_only=True):
+  """State of the two-body scene: the bystander sphere rests on the ground 7 m away."""
+  if bystander is None:
+    return q
+  return np.concatenate([[7.0, 0.0, bystander[1][0], 1.0, 0.0, 0.0, 0.0], q])
 
 
 def lowest(shape, size, quat):
@@ -296,14 +309,17 @@ def check_push(c, ctx=None):
 @st.composite
 def rest_cases(draw):
   shape, size = draw(shape_())
-  return {'family': 'resting', 'shape': shape, 'size': size, 'density': draw(fl(200.0, 3000.0)), 'drop': draw(st.one_of(fl(0.0, 0.5), st.just(0.0)))}
+  return {'family': 'resting', 'shape': shape, 'size': size, 'density': draw(fl(200.0, 3000.0)), 'drop': draw(st.one_of(fl(0.0, 0.5), st.just(0.0))),
+          'bystander': draw(st.sampled_from([None, ['sphere', [0.1]], ['sphere', [0.2]]]))}
 
 
 def check_resting(c, ctx=None, pipelines=phys.PIPELINES):
   m = phys.mods()
   jax, jp = m['jax'], m['jp']
   dt, nsteps = 0.002, 1500
-  xml = body_xml(c['shape'], c['size'], c['density'], -9.81, dt)
+  by = c.get('bystander')
+  bi = 1 if by else 0   # link index of the body under test
+  xml = body_xml(c['shape'], c['size'], c['density'], -9.81, dt, bystander=by)
   phys.load_mj(xml)
   sys = phys.load_brax(xml)
   if c['shape'] == 'capsule':
@@ -312,16 +328,17 @@ def check_resting(c, ctx=None, pipelines=phys.PIPELINES):
     quat, zrest = [1.0, 0.0, 0.0, 0.0], c['size'][2]
   else:
     quat, zrest = [1.0, 0.0, 0.0, 0.0], c['size'][0]
-  q = np.array([0.0, 0.0, zrest + c['drop']] + quat)
+  q = with_bystander(np.array([0.0, 0.0, zrest + c['drop']] + quat), by)
+  nvv = 12 if by else 6
   res = {}
   deferred = None
   for pname in pipelines:
     pm = m[pname]
     def roll(q_):
-      s = pm.init(sys, q_, jp.zeros(6))
+      s = pm.init(sys, q_, jp.zeros(nvv))
       def f(s_, _):
         s_ = pm.step(sys, s_, jp.zeros(0))
-        return s_, (s_.x.pos[0, 2], s_.xd.vel[0, 2])
+        return s_, (s_.x.pos[bi, 2], s_.xd.vel[bi, 2])
       return jax.lax.scan(f, s, None, length=nsteps)[1]
     z, vz = jax.jit(roll)(jp.array(q))
     z, vz = np.asarray(z), np.asarray(vz)
@@ -344,31 +361,35 @@ def check_resting(c, ctx=None, pipelines=phys.PIPELINES):
       ctx.residual('resting_final_offset_' + pname, abs(z[-1] - zrest))
   if deferred is not None:
     raise deferred
-  return dict(fp=fingerprint(c), nontrivial=True, evals=nsteps * len(pipelines), labels=['resting', 'shape:' + c['shape']],
+  return dict(fp=fingerprint(c), nontrivial=True, evals=nsteps * len(pipelines), labels=['resting', 'shape:' + c['shape']] + (['two_trees'] if by else []),
               sample={'family': 'resting', **{k: c[k] for k in ('shape', 'size', 'density', 'drop')}, 'result': res})
 
 
 @st.composite
 def rebound_cases(draw):
   return {'family': 'rebound', 'r': draw(fl(0.05, 0.3)), 'density': draw(fl(200.0, 3000.0)),
-          'e': draw(st.one_of(fl(0.0, 0.9), st.sampled_from([0.0, 0.9, 0.5]))), 'h': draw(fl(0.2, 1.0))}
+          'e': draw(st.one_of(fl(0.0, 0.9), st.sampled_from([0.0, 0.9, 0.5]))), 'h': draw(fl(0.2, 1.0)),
+          'bystander': draw(st.sampled_from([None, ['sphere', [0.1]]]))}
 
 
 def check_rebound(c, ctx=None):
   m = phys.mods()
   jax, jp = m['jax'], m['jp']
-  xml = body_xml('sphere', [c['r']], c['density'], -9.81, 0.001, elasticity=c['e'])
+  by = c.get('bystander')
+  bi = 1 if by else 0
+  xml = body_xml('sphere', [c['r']], c['density'], -9.81, 0.001, elasticity=c['e'], bystander=by)
   phys.load_mj(xml)
   sys = phys.load_brax(xml)
-  q = np.array([0.0, 0.0, c['r'] + c['h'], 1.0, 0.0, 0.0, 0.0])
+  q = with_bystander(np.array([0.0, 0.0, c['r'] + c['h'], 1.0, 0.0, 0.0, 0.0]), by)
+  nvv = 12 if by else 6
   res = {}
   for pname, (lo, hi) in (('spring', (-0.02, 0.2)), ('positional', (-0.02, 0.02))):
     pm = m[pname]
     def roll(q_):
-      s = pm.init(sys, q_, jp.zeros(6))
+      s = pm.init(sys, q_, jp.zeros(nvv))
       def f(s_, _):
         s_ = pm.step(sys, s_, jp.zeros(0))
-        return s_, s_.xd.vel[0, 2]
+        return s_, s_.xd.vel[bi, 2]
       return jax.lax.scan(f, s, None, length=900)[1]
     vz = np.asarray(jax.jit(roll)(jp.array(q)))
     i = int(np.argmin(vz))
@@ -381,7 +402,7 @@ def check_rebound(c, ctx=None):
     if not lo <= ratio - c['e'] <= hi:
       raise Violation('rebound', f'{pname}: sphere r={c["r"]:.3f} dropped {c["h"]:.2f} m with elasticity {c["e"]:.3f} hits at {vin:.3f} m/s and leaves at '
                       f'{vout:.3f} m/s: ratio - e = {ratio - c["e"]:.3f} outside [{lo}, {hi}]', labels={'check': 'rebound', 'pipeline': pname})
-  return dict(fp=fingerprint(c), nontrivial=True, evals=1800, labels=['rebound'], sample={'family': 'rebound', **{k: c[k] for k in ('r', 'e', 'h')}, 'result': res})
+  return dict(fp=fingerprint(c), nontrivial=True, evals=1800, labels=['rebound'] + (['two_trees'] if by else []), sample={'family': 'rebound', **{k: c[k] for k in ('r', 'e', 'h')}, 'result': res})
 
 
 FAMILIES = {'separated': (separated_cases, check_separated), 'hover': (hover_cases, check_hover), 'limits': (limit_cases, check_limits), 'push': (push_cases, check_push),
